@@ -109,6 +109,9 @@ class C20(Check):
     exhaustive = {}
 
     def preload(self):
+        from checks import c19
+
+        c19.preload_cotenant()
         import okdmr.dmrlib.storage.repeater_storage  # noqa
 
     def budget(self, tier):
@@ -169,12 +172,19 @@ class C20(Check):
                 op["rec"] = w.randrange(6)
                 op["unknown"] = w.random() < 0.1
             ops.append(op)
-        return {"knobs": {"clients": nclients, "uuid_seed": k.getrandbits(32)}, "ops": ops}
+        case = {"knobs": {"clients": nclients, "uuid_seed": k.getrandbits(32)}, "ops": ops}
+        if k.random() < 0.08:
+            from checks import c19
+
+            case["cotenant"] = c19.gen_cotenant(streams["cotenant"])
+        return case
 
     def sample(self, case):
         return {"arm": case.get("arm"), "knobs": case["knobs"], "ops": case["ops"][:10], "n_ops": len(case["ops"])}
 
     def simplify(self, case):
+        if case.get("cotenant"):
+            yield {kk: v for kk, v in case.items() if kk != "cotenant"}
         for i, o in enumerate(case["ops"]):
             if o.get("patch"):
                 for key in list(o["patch"]):
@@ -233,7 +243,15 @@ class C20(Check):
             model.append(m)
             return m
 
+        co = case.get("cotenant") or []
+        if co:
+            from checks import c19
+
+            c19.run_cotenant(co[: len(co) // 2])
+            res.fault("cotenant_library_calls", len(co))
         for i, op in enumerate(case["ops"]):
+            if co and i == len(case["ops"]) // 2:
+                c19.run_cotenant(co[len(co) // 2:])
             o = op["op"]
             c = op.get("client", 0)
             site = o
